@@ -207,7 +207,7 @@ fn shapes_create_dir_all() -> Vec<Case> {
     for n in 510u16..=516 {
         pads.push(Pad::Names(n));
     }
-    for n in 510u16..=516 {
+    for n in 511u16..=514 {
         pads.push(Pad::Seps(n));
     }
     pads.push(Pad::Names(1000));
@@ -301,7 +301,7 @@ fn shapes_write_read() -> Vec<Case> {
     out
 }
 
-fn shapes_remove_dir_all() -> Vec<Case> {
+fn shapes_remove_dir_all(fanout: u16) -> Vec<Case> {
     let mut out = Vec::new();
     for variant in 0..6u8 {
         for shape in 0..8u8 {
@@ -338,7 +338,7 @@ fn shapes_remove_dir_all() -> Vec<Case> {
                     t.push(ent(idx_for(6, 7), b"out", EKind::Link { target: idx_for(0, 9), rel: false }));
                 }
                 4 => {
-                    t.push(ent(v, b"many", EKind::Many { count: 300, len_a: 0, len_step: 37, mixed: true }));
+                    t.push(ent(v, b"many", EKind::Many { count: fanout, len_a: 0, len_step: 37, mixed: true }));
                     t.push(Entry { parent: v, name: NameSpec::new(b"L", 255), kind: EKind::Dir });
                     t.push(ent(v, &[0xff, 0xfe, b'\n'], EKind::File(Data::Raw(BStr(vec![1])))));
                 }
@@ -356,10 +356,10 @@ fn shapes_remove_dir_all() -> Vec<Case> {
     out
 }
 
-fn shapes_readdir() -> Vec<Case> {
+fn shapes_readdir(fanout: u16) -> Vec<Case> {
     let mut out = Vec::new();
     for &(len_a, len_step) in &[(0u8, 0u8), (251, 0), (0, 1), (0, 37), (100, 13), (20, 0)] {
-        for &count in &[0u16, 1, 16, 17, 18, 19, 20, 21, 22, 40, 300] {
+        for &count in &[0u16, 1, 16, 17, 18, 19, 20, 21, 22, 40, fanout] {
             for mixed in [false, true] {
                 let mut t = vec![ent(0, b"m", EKind::Many { count, len_a, len_step, mixed })];
                 t.push(Entry { parent: idx_for(1, 2), name: NameSpec::new(b"N", 255), kind: EKind::File(Data::Raw(BStr(vec![]))) });
@@ -433,25 +433,25 @@ pub fn run(ctx: &Ctx) {
     lap("copy-shapes");
     directed(ctx, &env, "write-read-shapes", shapes_write_read());
     lap("write-read-shapes");
-    directed(ctx, &env, "remove_dir_all-shapes", shapes_remove_dir_all());
+    directed(ctx, &env, "remove_dir_all-shapes", shapes_remove_dir_all(max_many));
     lap("remove_dir_all-shapes");
-    directed(ctx, &env, "readdir-shapes", shapes_readdir());
+    directed(ctx, &env, "readdir-shapes", shapes_readdir(max_many));
     lap("readdir-shapes");
 
     // random, one family per sub-check
-    ctx.run_prop("create_dir_all", ctx.cases(400, 12_000), case_of(tree(6, 0, 0, 5000), op_cda(), 4), f);
+    ctx.run_prop("create_dir_all", ctx.cases(250, 12_000), case_of(tree(6, 0, 0, 5000), op_cda(), 4), f);
     lap("create_dir_all");
-    ctx.run_prop("copy", ctx.cases(300, 8_000), case_of(tree_with_files(5, big), op_copy(), 4), f);
+    ctx.run_prop("copy", ctx.cases(200, 8_000), case_of(tree_with_files(5, big), op_copy(), 4), f);
     lap("copy");
-    ctx.run_prop("write-read", ctx.cases(300, 8_000), case_of(tree_with_files(5, big), prop_oneof![op_write(big), op_read()], 6), f);
+    ctx.run_prop("write-read", ctx.cases(200, 8_000), case_of(tree_with_files(5, big), prop_oneof![op_write(big), op_read()], 6), f);
     lap("write-read");
-    ctx.run_prop("remove_dir_all", ctx.cases(200, 6_000), case_of(tree(12, max_many, 1, 5000), op_rda(), 3), f);
+    ctx.run_prop("remove_dir_all", ctx.cases(120, 6_000), case_of(tree(12, max_many, 1, 5000), op_rda(), 3), f);
     lap("remove_dir_all");
-    ctx.run_prop("readdir", ctx.cases(150, 5_000), case_of(tree(8, max_many, 2, 5000), op_readdir(), 3), f);
+    ctx.run_prop("readdir", ctx.cases(100, 5_000), case_of(tree(8, max_many, 2, 5000), op_readdir(), 3), f);
     lap("readdir");
-    ctx.run_prop("rename-misc", ctx.cases(400, 12_000), case_of(tree(10, 40, 1, 5000), op_misc(), 8), f);
+    ctx.run_prop("rename-misc", ctx.cases(250, 12_000), case_of(tree(10, 40, 1, 5000), op_misc(), 8), f);
     lap("rename-misc");
     // mixed histories
-    ctx.run_prop("history", ctx.cases(300, 15_000), case_of(tree(12, max_many, 1, big), op_any(big), 30), f);
+    ctx.run_prop("history", ctx.cases(200, 15_000), case_of(tree(12, max_many, 1, big), op_any(big), 30), f);
     lap("history");
 }
